@@ -59,6 +59,8 @@ func TestC08(t *testing.T) {
 		r.Parallel(t, "virtual-copy", r.Cfg.pick(4000, 80000), body(joinGen{Discs: discs, NoCopy: -1, Retain: true}))
 		r.Parallel(t, "virtual-nocopy", r.Cfg.pick(4000, 80000), body(joinGen{Discs: discs, NoCopy: 1, Retain: true}))
 		r.Parallel(t, "virtual-v1-stop-before-release", r.Cfg.pick(3000, 60000), body(joinGen{Discs: []string{"v1join"}, NoCopy: 1, Stop: 2}))
+		// copy mode under Stop(): what is delivered around the stop is the consumer's like everything else
+		r.Parallel(t, "virtual-v1-stop-copy", r.Cfg.pick(3000, 50000), body(joinGen{Discs: []string{"v1join"}, NoCopy: -1, Retain: true, Stop: 1}))
 		// ... and at any other point: e.g. while the next slice sits, sent but unread, in the output buffer
 		r.Parallel(t, "virtual-v1-stop-anywhere", r.Cfg.pick(4000, 60000), body(joinGen{Discs: []string{"v1join"}, NoCopy: 1, Stop: 1}))
 	}
